@@ -413,7 +413,13 @@ impl Database {
             break;
         }
 
-        let mut cascade_deletes: Vec<(String, String, Vec<Vec<u8>>)> = Vec::new();
+        #[allow(clippy::type_complexity)]
+        let mut cascade_deletes: Vec<(
+            String,
+            String,
+            Vec<crate::schema::table::ColumnDef>,
+            Vec<(Vec<u8>, Vec<OwnedValue>)>,
+        )> = Vec::new();
 
         if !values_to_check.is_empty() {
             for (child_schema, child_name, child_columns, fk_col_idx, on_delete) in
@@ -425,7 +431,7 @@ impl Database {
                 let mut child_cursor = child_btree.cursor_first()?;
                 let child_record_schema = create_record_schema(child_columns);
 
-                let mut keys_to_cascade: Vec<Vec<u8>> = Vec::new();
+                let mut keys_to_cascade: Vec<(Vec<u8>, Vec<OwnedValue>)> = Vec::new();
 
                 while child_cursor.valid() {
                     let child_key = child_cursor.key()?.to_vec();
@@ -455,7 +461,7 @@ impl Database {
                                 {
                                     match on_delete {
                                         Some(crate::schema::ReferentialAction::Cascade) => {
-                                            keys_to_cascade.push(child_key.clone());
+                                            keys_to_cascade.push((child_key.clone(), child_row.clone()));
                                         }
                                         Some(crate::schema::ReferentialAction::SetNull) => {
                                             bail!(
@@ -489,19 +495,54 @@ impl Database {
                     cascade_deletes.push((
                         child_schema.clone(),
                         child_name.clone(),
+                        child_columns.clone(),
                         keys_to_cascade,
                     ));
                 }
             }
         }
 
-        for (child_schema, child_name, keys) in &cascade_deletes {
-            let child_storage_arc = file_manager.table_data_mut(child_schema, child_name)?;
-            let mut child_storage = child_storage_arc.write();
-            let mut child_btree = BTree::new(&mut *child_storage, root_page)?;
+        for (child_schema, child_name, child_columns, rows) in &cascade_deletes {
+            {
+                let child_storage_arc = file_manager.table_data_mut(child_schema, child_name)?;
+                let mut child_storage = child_storage_arc.write();
+                let mut child_btree = BTree::new(&mut *child_storage, root_page)?;
 
-            for key in keys {
-                let _ = child_btree.delete(key);
+                for (key, _) in rows {
+                    let _ = child_btree.delete(key);
+                }
+            }
+
+            // the cascaded rows leave the child's PRIMARY KEY / UNIQUE indexes as well
+            let mut child_key_buf: SmallVec<[u8; 64]> = SmallVec::new();
+            for (col_idx, col) in child_columns.iter().enumerate() {
+                let index_name = if col.has_constraint(&Constraint::PrimaryKey) {
+                    format!("{}_pkey", col.name())
+                } else if col.has_constraint(&Constraint::Unique) {
+                    format!("{}_key", col.name())
+                } else {
+                    continue;
+                };
+                if !file_manager.index_exists(child_schema, child_name, &index_name) {
+                    continue;
+                }
+                let index_storage_arc =
+                    file_manager.index_data_mut(child_schema, child_name, &index_name)?;
+                let mut index_storage = index_storage_arc.write();
+                let index_root_page = {
+                    let page0 = index_storage.page(0)?;
+                    IndexFileHeader::from_bytes(page0)?.root_page()
+                };
+                let mut index_btree = BTree::new(&mut *index_storage, index_root_page)?;
+                for (_, row) in rows {
+                    if let Some(value) = row.get(col_idx) {
+                        if !value.is_null() {
+                            child_key_buf.clear();
+                            Self::encode_value_as_key(value, &mut child_key_buf);
+                            let _ = index_btree.delete(&child_key_buf);
+                        }
+                    }
+                }
             }
         }
 
